@@ -934,7 +934,7 @@ SCENARIOS = {
 
     "pad": (sc_pad, lambda N: [("n", 1, N), ("c", 1, N), ("pl", 0, 2), ("pr", 0, 2), ("e", 0, N + 4)]),
     "diff": (sc_diff, lambda N: [("n", 2, N), ("c", 1, N), ("e", 0, N)]),
-    "tile": (sc_tile, lambda N: [("n", 1, N), ("c", 1, N), ("r", 1, 3), ("e", 0, 3 * N)]),
+    "tile": (sc_tile, lambda N: [("n", 1, N), ("c", 1, N), ("r", 0, 3), ("e", 0, 3 * N)]),
     "where": (sc_where, lambda N: [("n", 1, N), ("c", 1, N), ("c2", 1, N), ("e", 0, N)]),
     "moveaxis": (sc_moveaxis, lambda N: [("n", 1, 4), ("m", 1, N), ("c", 1, 4), ("c2", 1, N), ("e", 0, 4), ("e2", 0, N)]),
     "linalg.outer": (sc_outer, lambda N: [("n", 1, 4), ("m", 1, N), ("c", 1, 4), ("c2", 1, N), ("e", 0, 4), ("e2", 0, N)]),
